@@ -166,7 +166,10 @@ def h2_negative_window(seed):
                          "sends_now": len(app1["sends"]), "finished": app1["finished"]})
     sess.auto_ack = True
     sess.window_update(0, total + 100000)
-    sess.window_update(1, total + 100000)
+    try:
+        sess.window_update(1, total + 100000)
+    except Exception:  # noqa: BLE001  (the response was small enough to have been delivered already: the stream is closed)
+        sess.flush()
     for _ in range(80):
         sess.pump()
         if sess.ended.get(1) or sess.reset.get(1) is not None:
